@@ -245,6 +245,50 @@ static void queueBody(BodyCtx& ctx, int kind, int lanes, bool canceller) {
   if (del.started != del.finished) ctx.fail("C16.start-finish-unpaired", "queueJobStarted=" + std::to_string(del.started.load()) + " queueJobFinished=" + std::to_string(del.finished.load()));
   ctx.outcome = "max" + std::to_string(maxInflight.load());
 }
+// A process launch racing with cancelAllJobs(): after cancellation has returned
+// no new process may be started, and the launch must complete exactly once with
+// a status that reflects what happened.
+struct ProcDelegate : public QDelegate {
+  std::atomic<bool>* cancelReturned = nullptr;
+  std::atomic<int> startedAfterCancel{0}, startedTotal{0};
+  void processStarted(basic::ProcessContext*, basic::ProcessHandle, llbuild_pid_t pid) override {
+    if (pid == (llbuild_pid_t)-1) return;
+    ++startedTotal;
+    if (cancelReturned && cancelReturned->load()) ++startedAfterCancel;
+  }
+};
+static void procBody(BodyCtx& ctx, int kind) {
+  ProcDelegate del;
+  std::atomic<bool> cancelReturned{false};
+  del.cancelReturned = &cancelReturned;
+  std::atomic<int> completions{0};
+  std::atomic<int> status{-1};
+  Desc d0("p0");
+  {
+    std::unique_ptr<basic::ExecutionQueue> q;
+    if (kind == 0)
+      q.reset(basic::createLaneBasedExecutionQueue(del, 1, basic::SchedulerAlgorithm::FIFO, basic::QualityOfService::Normal, nullptr));
+    else
+      q = basic::createSerialQueue(del, nullptr);
+    basic::ExecutionQueue* qp = q.get();
+    std::thread canc([&]() { qp->cancelAllJobs(); cancelReturned = true; });
+    q->addJob(basic::QueueJob(&d0, [&, qp](basic::QueueJobContext* c) {
+      std::vector<StringRef> argv{"/bin/true"};
+      qp->executeProcess(c, argv, {}, basic::ProcessAttributes{true},
+                         {[&](basic::ProcessResult r) { ++completions; status = (int)r.status; }}, nullptr);
+    }));
+    canc.join();
+    q.reset();
+  }
+  if (completions != 1) ctx.fail("C16.proc-completion-count", "completion callback fired " + std::to_string(completions.load()) + " times for one launch");
+  if (del.startedAfterCancel != 0) ctx.fail("C16.proc-started-after-cancel", "a process was started after cancelAllJobs() had returned");
+  if (del.startedTotal == 0 && status != (int)basic::ProcessStatus::Cancelled)
+    ctx.fail("C16.proc-not-started-but-not-cancelled", "no process was started, yet the launch completed with status " + std::to_string(status.load()));
+  ctx.outcome = std::string(del.startedTotal ? "spawned" : "not-spawned") + "/" + std::to_string(status.load());
+}
+void P1(BodyCtx& c) { procBody(c, 0); }
+void P2(BodyCtx& c) { procBody(c, 1); }
+
 void Q1(BodyCtx& c) { queueBody(c, 0, 2, false); }
 void Q2(BodyCtx& c) { queueBody(c, 0, 2, true); }
 void Q3(BodyCtx& c) { queueBody(c, 1, 1, false); }
@@ -262,5 +306,7 @@ const Body kBodies[] = {
     {"Q2-lane-queue-canceller", "C16", 1, 2, false, Q2},
     {"Q3-serial-queue", "C16", 2, 3, true, Q3},
     {"Q4-serial-queue-canceller", "C16", 1, 2, false, Q4},
+    {"P1-lane-queue-launch-vs-cancel", "C16", 1, 2, false, P1},
+    {"P2-serial-queue-launch-vs-cancel", "C16", 1, 2, false, P2},
 };
 const int kNumBodies = sizeof(kBodies) / sizeof(kBodies[0]);
